@@ -93,6 +93,8 @@ def vectors():
             out.append((fn, {'inputs': [(('pair', p, s), ('pair', pv, sv))], 'code': code}, ev))
         except (Outside, G.Unrenderable):
             skipped += 1
+        except Exception:  # noqa: BLE001  (vector text the pytezos parser rejects)
+            skipped += 1
     return out, skipped
 
 
